@@ -551,6 +551,9 @@ FIND_PACKET:
 			r.ci.Timestamp = time.Unix(r.convertTime(r.ci.InterfaceIndex, uint64(r.getUint32(r.buf[4:8]))<<32|uint64(r.getUint32(r.buf[8:12])))).UTC()
 			r.ci.CaptureLength = int(r.getUint32(r.buf[12:16]))
 			r.ci.Length = int(r.getUint32(r.buf[16:20]))
+			if r.ci.CaptureLength > r.ci.Length {
+				return fmt.Errorf("Capture length exceeds original packet length: %d > %d", r.ci.CaptureLength, r.ci.Length)
+			}
 			break FIND_PACKET
 		case ngBlockTypeSimplePacket:
 			if _, err := r.readBytes(r.buf[:4]); err != nil {
@@ -592,6 +595,9 @@ FIND_PACKET:
 			r.ci.Timestamp = time.Unix(r.convertTime(r.ci.InterfaceIndex, uint64(r.getUint32(r.buf[4:8]))<<32|uint64(r.getUint32(r.buf[8:12])))).UTC()
 			r.ci.CaptureLength = int(r.getUint32(r.buf[12:16]))
 			r.ci.Length = int(r.getUint32(r.buf[16:20]))
+			if r.ci.CaptureLength > r.ci.Length {
+				return fmt.Errorf("Capture length exceeds original packet length: %d > %d", r.ci.CaptureLength, r.ci.Length)
+			}
 			break FIND_PACKET
 		case ngBlockTypeNameResolution:
 			if err := r.readNameResolutionBlock(); err != nil {
